@@ -109,6 +109,101 @@ def inverse_steps(S, P, lum, chrom, h):
     return steps
 
 
+import re
+from .c12 import _tree
+
+
+def _whole(t, base):
+    """t is the scalarised form of the value `base` passed through untouched"""
+    if isinstance(t, str):
+        return t == base or t.startswith("unit:")
+    if isinstance(t, tuple) and isinstance(t[0], str) and t[0].startswith("mk:"):
+        names = re.match(r"mk:\w+\{([^}]*)\}", t[0]).group(1).split(",")
+        return len(names) == len(t[1]) and all(_whole(a, base + "." + n) for n, a in zip(names, t[1]))
+    if isinstance(t, tuple) and isinstance(t[0], str) and t[0].startswith("struct:"):
+        return all(_whole(a, base + "." + n) for n, a in t[1].items())
+    return False
+
+
+# method -> (trait method it must forward to, position of the parameters argument)
+FWD = {
+    "from_xyz": "cam16::IntoCam16Unclamped::into_cam16_unclamped",
+    "into_full": "cam16::IntoCam16Unclamped::into_cam16_unclamped",
+    "into_xyz": "cam16::Cam16IntoUnclamped::cam16_into_unclamped",
+}
+
+
+def check_cam16_forwarders(F, rep):
+    """CAM16-FWD: the public entry points (from_xyz / into_xyz / into_full on Cam16, the six partial types and their Alpha forms) hand the
+    colour itself and the caller's parameters to the conversion trait of their direction; the Alpha forms convert the colour and pass alpha
+    through; the blanket Into*/From* impls and BakedParameters::convert forward to their mirror image; xyz -> Cam16 is math::xyz_to_cam16 of
+    the colour and the baked `inner` parameters."""
+    S = Session(F, no_inline={"cam16::math::xyz_to_cam16", "cam16::math::cam16_to_xyz"})
+    n = 0
+    for b in F.bodies:
+        if "::test" in b["path"] or b["dk"] not in ("Fn", "AssocFn") or not b["file"].startswith("palette/src/cam16"):
+            continue
+        im = b["_impl"]
+        nm = b["name"]
+        if nm in FWD and im is not None and not im.get("trait"):
+            alpha = im["self_s"].startswith("alpha::alpha::Alpha<")
+            key = "%s[%s]" % (nm, im["self_s"])
+            n += 1
+            try:
+                v, _ = S.eval(b, names=["x", "params"])
+                t = _tree(v)
+                inner = t
+                ok = True
+                if alpha:
+                    ok = isinstance(t, tuple) and t[0] == "struct:Alpha" and t[1].get("alpha") == "x.alpha"
+                    inner = t[1].get("color") if ok else None
+                base = "x.color" if alpha else "x"
+                ok = ok and isinstance(inner, tuple) and inner[0].startswith(FWD[nm] + "<") and len(inner[1]) == 2 and _whole(inner[1][0], base)
+                if ok:
+                    p = inner[1][1]
+                    ok = (isinstance(p, tuple) and p[0].startswith("std::convert::Into::into<") and p[1] == ["params"]) or p == "params"
+                if ok and nm == "into_full":
+                    ok = inner[0].endswith("cam16::full::Cam16<T>>")
+                rep.ob("CAM16-FWD", key, ok, alg._short(v, 200), F.loc(b), nontrivial=False)
+            except (Opaque, poly.TooBig, KeyError, AttributeError) as ex:
+                rep.fail("CAM16-FWD", key, "uninterpretable: %s" % ex, F.loc(b))
+    # blanket mirror impls and the Convert plumbing
+    MIRROR = {"into_cam16_unclamped": "cam16::Cam16FromUnclamped::cam16_from_unclamped", "cam16_into_unclamped": "cam16::FromCam16Unclamped::from_cam16_unclamped"}
+    for b in F.bodies:
+        im = b["_impl"]
+        if im is None or "::test" in b["path"] or not b["file"].startswith("palette/src/cam16"):
+            continue
+        if b["name"] in MIRROR and im["self_s"] == "U":
+            n += 1
+            try:
+                v, _ = S.eval(b, names=["x", "params"])
+                t = _tree(v)
+                ok = isinstance(t, tuple) and t[0].startswith(MIRROR[b["name"]] + "<") and t[1][0] == "x" and _whole(t[1][1], "params")
+                rep.ob("CAM16-FWD", "blanket %s" % b["name"], ok, alg._short(v, 160), F.loc(b), nontrivial=False)
+            except (Opaque, poly.TooBig, IndexError) as ex:
+                rep.fail("CAM16-FWD", "blanket %s" % b["name"], "uninterpretable: %s" % ex, F.loc(b))
+        elif b["name"] == "cam16_from_unclamped" and im["self_s"].startswith("cam16::full::Cam16<"):
+            n += 1
+            v, _ = S.eval(b, names=["x", "params"])
+            t = _tree(v)
+            ok = isinstance(t, tuple) and t[0].startswith("convert::Convert::convert<") and _whole(t[1][0], "params") and t[1][1] == "x"
+            rep.ob("CAM16-FWD", "Cam16::cam16_from_unclamped", ok, alg._short(v, 160), F.loc(b), nontrivial=False)
+        elif b["name"] == "convert" and im["self_s"].startswith("cam16::parameters::BakedParameters<"):
+            n += 1
+            v, _ = S.eval(b, names=["x", "input"])
+            t = _tree(v)
+            ok = isinstance(t, tuple) and t[0].startswith("convert::ConvertOnce::convert_once<") and _whole(t[1][0], "x") and t[1][1] == "input"
+            rep.ob("CAM16-FWD", "BakedParameters::convert", ok, alg._short(v, 160), F.loc(b), nontrivial=False)
+        elif b["name"] == "convert_once" and im["self_s"].startswith("cam16::parameters::BakedParameters<") and "xyz::Xyz<" in im["trait_args_s"][0] \
+                and im["trait_args_s"][1].startswith("cam16::full::Cam16<"):
+            n += 1
+            v, _ = S.eval(b, names=["x", "input"])
+            t = _tree(v)
+            ok = isinstance(t, tuple) and t[0].startswith("cam16::math::xyz_to_cam16<") and _whole(t[1][0], "input") and _whole(t[1][1], "x.inner")
+            rep.ob("CAM16-FWD", "BakedParameters: Xyz -> Cam16", ok, alg._short(v, 160), F.loc(b), nontrivial=False)
+    rep.floor("CAM16 entry points and plumbing", n, 40)
+
+
 def run(F, rep, tier="quick", extra=None, only=None):
     rep.trusted += ["rustc name resolution / type check", "operator table of rules/sym.py",
                     "CAM16 equations of Li et al. (2017) and the CIE 159 inverse steps as transcribed in rules/c16.py (J/100 written as j_root², the form the "
@@ -199,6 +294,7 @@ def run(F, rep, tier="quick", extra=None, only=None):
     check_partials(F, rep)
     check_parameter_plumbing(F, rep)
     check_ucs(F, rep)
+    check_cam16_forwarders(F, rep)
     return {"level": "other", "explanation": EXPLANATION}
 
 
